@@ -353,6 +353,11 @@ func (c *workceptorCommand) ControlFunc(ctx context.Context, nc controlsvc.Netce
 			unitID := unitList[i]
 			status, err := c.w.unitStatusForCFR(unitID)
 			if err != nil {
+				if !ok {
+					// listing all units: one that was released since ListKnownUnitIDs is simply no longer there
+					continue
+				}
+
 				return nil, err
 			}
 			cfr[unitID] = status
